@@ -41,3 +41,16 @@ package api
 //@   ensures [limiter-state] result1 == nil ==> result0.requestsInFlight != nil && result0.concurrencyLimitExceeded != nil && result0.timeout == opts.Timeout
 //@   after call prometheus.NewGauge assume res0 != nil
 //@   after call prometheus.NewCounter assume res0 != nil
+
+// ---- C18: every handler the API serves is mounted behind the shared limiter: the router under "/" and the v2 API under
+// its prefix (the latter additionally instrumented, outside the limiter); nothing is mounted bare.
+//@ func (*API).Register
+//@   props C18
+//@   nosafe
+//@   at call ServeMux).Handle assert [only-limited-handlers-are-mounted] count("ServeMux).Handle") == 0
+//@             ? (arg1 == "/" && count("API).limitHandler") == 1 && arg2 == ret("API).limitHandler"))
+//@             : (count("ServeMux).Handle") == 1 && count("API).limitHandler") == 2 && arg2 == ret("API).instrumentHandler"))
+//@   at call API).limitHandler assert [router-then-the-v2-api] arg0 == api && (count("API).limitHandler") == 0 ? (typeis(arg1, *route.Router) && unbox(arg1, *route.Router) == r) : arg1 == ret("http.StripPrefix"))
+//@   at call API).instrumentHandler assert [instrumentation-wraps-the-limited-v2-handler] arg0 == api && arg2 == ret("API).limitHandler") && count("API).limitHandler") == 2
+//@   ensures [two-mounts] count("ServeMux).Handle") == 2 && result == ret("http.NewServeMux")
+//@   noeffect API).limitHandler API).instrumentHandler V1DeprecationRouter).Register
